@@ -110,39 +110,62 @@ func (e *Env) ValidPreparedProof(p *protocol.PreparedProof, h primitives.BlockHe
 	return ok(), &ProofInfo{View: pp.View(), Hash: pp.BlockHash()}
 }
 
-// ValidVote: a VIEW_CHANGE content for exactly (instance, h, v) with the VIEW_CHANGE type tag, signed by a committee member,
-// whose prepared proof (if any) is valid.
-func (e *Env) ValidVote(vc *protocol.ViewChangeMessageContent, h primitives.BlockHeight, v primitives.View, com []interfaces.CommitteeMember) (Verdict, *ProofInfo) {
+// voteHeaderOK: a VIEW_CHANGE content for exactly (instance, h, v) with the VIEW_CHANGE type tag, signed by a committee member.
+func (e *Env) voteHeaderOK(vc *protocol.ViewChangeMessageContent, h primitives.BlockHeight, v primitives.View, com []interfaces.CommitteeMember) Verdict {
 	if vc == nil || len(vc.Raw()) == 0 {
-		return no("vote-empty"), nil
+		return no("vote-empty")
 	}
 	hd := vc.SignedHeader()
 	if hd.MessageType() != protocol.LEAN_HELIX_VIEW_CHANGE {
-		return no("type-tag"), nil
+		return no("type-tag")
 	}
 	if hd.InstanceId() != e.Instance {
-		return no("vote-instance"), nil
+		return no("vote-instance")
 	}
 	if hd.BlockHeight() != h {
-		return no("vote-height"), nil
+		return no("vote-height")
 	}
 	if hd.View() != v {
-		return no("vote-view"), nil
+		return no("vote-view")
 	}
 	if !IsMember(com, vc.Sender().MemberId()) {
-		return no("vote-sender-not-member"), nil
+		return no("vote-sender-not-member")
 	}
 	if !e.sigOK(h, hd.Raw(), vc.Sender()) {
-		return no("vote-signature"), nil
+		return no("vote-signature")
 	}
-	if hasProof(hd.PreparedProof()) {
-		pv, info := e.ValidPreparedProof(hd.PreparedProof(), h, v, com)
+	return ok()
+}
+
+// ValidVote: an authentic vote (voteHeaderOK) whose prepared proof, if any, is valid.
+func (e *Env) ValidVote(vc *protocol.ViewChangeMessageContent, h primitives.BlockHeight, v primitives.View, com []interfaces.CommitteeMember) (Verdict, *ProofInfo) {
+	if vd := e.voteHeaderOK(vc, h, v, com); !vd.OK {
+		return vd, nil
+	}
+	if hasProof(vc.SignedHeader().PreparedProof()) {
+		pv, info := e.ValidPreparedProof(vc.SignedHeader().PreparedProof(), h, v, com)
 		if !pv.OK {
 			return pv, nil
 		}
 		return ok(), info
 	}
 	return ok(), nil
+}
+
+// AuthenticVote is ValidVote without the proof clause. The returned info is non-nil only if the vote carries a VALID
+// prepared proof (an invalid proof is simply not counted); invalidProof reports that it carried an invalid one.
+func (e *Env) AuthenticVote(vc *protocol.ViewChangeMessageContent, h primitives.BlockHeight, v primitives.View, com []interfaces.CommitteeMember) (vd Verdict, info *ProofInfo, invalidProof bool) {
+	if vd := e.voteHeaderOK(vc, h, v, com); !vd.OK {
+		return vd, nil, false
+	}
+	if hasProof(vc.SignedHeader().PreparedProof()) {
+		pv, info := e.ValidPreparedProof(vc.SignedHeader().PreparedProof(), h, v, com)
+		if !pv.OK {
+			return ok(), nil, true
+		}
+		return ok(), info, false
+	}
+	return ok(), nil, false
 }
 
 // NewViewInfo summarises a NEW_VIEW that passed ValidNewView.
@@ -156,7 +179,7 @@ type NewViewInfo struct {
 // signature, total weight >= Q; embedded proposal for (instance,h,v) with the PREPREPARE tag signed by leader(v); its hash
 // is satisfied by the attached block; it equals the hash certified by the highest-view valid prepared proof among the
 // votes, or - if no vote carries a proof - consumerOK(block) holds.
-// Votes whose proof is invalid make the certificate invalid (a correct leader only counts valid votes).
+// A vote with a valid signature whose proof is invalid still counts as a vote; only VALID proofs decide the proposal.
 func (e *Env) ValidNewView(nv *interfaces.NewViewMessage, h primitives.BlockHeight, com []interfaces.CommitteeMember, commitmentOK func(block interfaces.Block, hash primitives.BlockHash) bool, consumerOK func(block interfaces.Block, hash primitives.BlockHash) bool) (Verdict, *NewViewInfo) {
 	c := nv.Content()
 	hd := c.SignedHeader()
@@ -186,10 +209,11 @@ func (e *Env) ValidNewView(nv *interfaces.NewViewMessage, h primitives.BlockHeig
 	it := hd.ViewChangeConfirmationsIterator()
 	for it.HasNext() {
 		vote := it.NextViewChangeConfirmations()
-		vv, info := e.ValidVote(vote, h, v, com)
+		vv, info, invalidProof := e.AuthenticVote(vote, h, v, com)
 		if !vv.OK {
 			return vv, nil
 		}
+		_ = invalidProof // a vote with a valid signature but an invalid proof still counts as a vote; its proof does not count
 		id := vote.Sender().MemberId()
 		if seen[string(id)] {
 			return no("nv-duplicate-voter"), nil
